@@ -53,7 +53,7 @@ def rule_step(line: int, depth: int, vi: int) -> None:
 
 def p_error_message(tl: int, ll: int, vi: int) -> None:
     """
-    pre: 1 <= tl <= 5 and 1 <= ll <= 5 and 0 <= vi <= 7
+    pre: 1 <= tl <= 4 and 1 <= ll <= 4 and 0 <= vi <= 7
     post: True
     """
     hlib.enter(locals())
